@@ -267,6 +267,9 @@ func init() {
 				} else if i%6 == 3 {
 					prog = g.twoAssetsProgram()
 					c.count("directed:twoAssets")
+				} else if i%12 == 1 {
+					prog = g.zeroShareProgram()
+					c.count("directed:zeroShare")
 				} else {
 					prog = g.Program()
 				}
